@@ -504,6 +504,20 @@ class Tr:
                 p = self.fam.prims[key]
                 a, _ = self.E(ast.copy_location(ast.Name(id=root, ctx=ast.Load()), node), env, p.args[0])
                 return f'(P.{p.field} {a} "{r.value}")'
+        if op is ast.Eq and isinstance(l, ast.Call) and dotted(l.func) == 'type' and len(l.args) == 1 and not l.keywords \
+                and isinstance(r, ast.Name):
+            # dispatch on the Python type of an argument: reviewed primitives of the argument's sum sort
+            x = l.args[0]
+            if isinstance(x, ast.Subscript) and isinstance(x.slice, ast.Constant) and x.slice.value == 0 \
+                    and f'type([0])=={r.id}' in self.fam.prims:
+                p = self.fam.prims[f'type([0])=={r.id}']
+                a, _ = self.E(x.value, env, p.args[0])
+                return f'(P.{p.field} {a})'
+            if f'type=={r.id}' in self.fam.prims:
+                p = self.fam.prims[f'type=={r.id}']
+                a, _ = self.E(x, env, p.args[0])
+                return f'(P.{p.field} {a})'
+            raise self.err(node, 'type test without a reviewed primitive')
         if op in (ast.Is, ast.IsNot) and isinstance(l, ast.Attribute) and l.attr == 'dtype' and dotted(r) == 'np.bool_' \
                 and '.dtype is np.bool_' in self.fam.prims:
             p = self.fam.prims['.dtype is np.bool_']
@@ -619,6 +633,9 @@ class Tr:
             a, sa = self._E(node.args[0], env)
             if sa == 'natlist':
                 return f'(List.map ofNat {a})', 'vec'
+            if f'np.array(float):{sa}' in self.fam.prims:
+                q = self.fam.prims[f'np.array(float):{sa}']
+                return f'(P.{q.field} {a})', q.ret
         # np.array([a, b, c]) of scalars: the vector
         if d == 'np.array' and len(node.args) == 1 and not node.keywords and isinstance(node.args[0], ast.List) \
                 and node.args[0].elts and not any(isinstance(r, (ast.List, ast.Tuple)) for r in node.args[0].elts) \
@@ -770,6 +787,8 @@ class Tr:
                 d, recv = '.' + chain[1] + '()', ast.copy_location(ast.Name(id=chain[0], ctx=ast.Load()), node)
             else:
                 raise self.err(node, f'call of {d or "<expr>"} is not in the primitive table of family {self.fam.name}')
+        if d and d + '(out)' in self.fam.prims and any(k.arg == 'out' for k in node.keywords):
+            d = d + '(out)'                              # the same callee with / without a destination array: two reviewed signatures
         p = self.fam.prims[d]
         if p.raises and not getattr(self, '_allow_raising', False):
             raise self.err(node, f'{d} may raise: only `a, b = {d}(..)` as a statement is in the subset')
@@ -929,6 +948,18 @@ class Tr:
                     raise self.err(s, '`return` inside a loop that is not a reviewed search loop')
                 txt, _ = self.E(s.value, env, self.t.ret)
                 return self._loop_exit(env, ind, False, ret=txt)
+            if isinstance(s.value, ast.Call) and self.raises and not getattr(self, '_ret', None):
+                dd = dotted(s.value.func)
+                if dd and dd + '(out)' in self.fam.prims and any(kk.arg == 'out' for kk in s.value.keywords):
+                    dd = dd + '(out)'
+                if dd in self.fam.prims and self.fam.prims[dd].raises:
+                    # `return callee(..)` of a callee that may raise: its `Option` is the result
+                    self._allow_raising = True
+                    try:
+                        txt, _ = self.E(s.value, env, self.t.ret)
+                    finally:
+                        self._allow_raising = False
+                    return [pad + txt]
             txt, _ = self.E(s.value, env, getattr(self, '_ret', None) or self.t.ret)
             return [pad + (f'some {txt}' if self.raises else txt)]
         if isinstance(s, ast.Raise):
@@ -1648,6 +1679,21 @@ ZOOM = Family(
         'int': Prim('trunc', ['K'], 'int', doc='Python `int(x)` of a float: truncation toward zero'),
     }, extra_params=EMBED, prop='C18')
 
+LEAN_TYPE['sizearg'] = 'Sz'
+IMRESIZE = Family(
+    'imresize', ['K', 'A', 'Sz', 'Bf', 'D'], '[Add K] [Sub K] [Mul K] [Div K]', 'ImresizePrims',
+    {
+        'type==tuple': Prim('is_tuple', ['sizearg'], 'bool'),
+        'type==list': Prim('is_list', ['sizearg'], 'bool'),
+        'type([0])==int': Prim('first_is_int', ['sizearg'], 'bool', doc='`type(nsize[0]) == int`'),
+        'const:np.float64': Prim('float64', [], 'dtype'),
+        'np.empty': Prim('empty', ['sizearg', 'dtype'], 'buf', kw={'dtype': 1}),
+        'np.array(float):sizearg': Prim('as_floats', ['sizearg'], 'vec', doc='`np.array(nsize, dtype=float)`'),
+        '.shape': Prim('shape', ['arr'], 'natlist'),
+        'zoom(out)': Prim('zoom_out', ['arr', 'vec', 'nat', 'buf'], 'arr', kw={'order': 2, 'out': 3}, raises=True),
+        'zoom': Prim('zoom_factor', ['arr', 'sizearg', 'nat'], 'arr', kw={'order': 2}, raises=True),
+    }, extra_params=EMBED, prop='C18')
+
 HISTO = Family(
     'histogram thresholds', ['H', 'G'], '', 'HistPrims',
     {
@@ -1715,6 +1761,7 @@ TARGETS = [
     Target('morph.py', 'disk', [('radius', 'nat'), ('dim', 'nat')], 'bfld', DISK,
            consts={'bool': ('P.bool_dtype', 'dtype'), 'float': ('P.float_dtype', 'dtype')}),
     Target('thin.py', 'thin', [('binimg', 'arr'), ('max_iter', 'int')], 'arr', THIN, consts={'bool': ('P.bool_dtype', 'dtype')}),
+    Target('resize.py', 'imresize', [('img', 'arr'), ('nsize', 'sizearg'), ('order', 'nat')], 'arr', IMRESIZE, raises=True),
     # a reviewed SLICE of interpolate.zoom: the path `out is None` (and the deprecated alias `output` not given), up to the
     # assignment of `output_shape` - the shape arithmetic `int(s * z)` with the scalar-to-vector broadcast and both checks
     Target('interpolate.py', 'zoom', [('array', 'arr'), ('zoom', 'zarg'), ('order', 'nat'), ('prefilter', 'bool')], 'intlist', ZOOM,
@@ -1729,7 +1776,7 @@ TARGETS = [
     Target('convolve.py', 'wavelet_center', [('f', 'arr'), ('border', 'int'), ('dtype', 'dtype'), ('cval', 'K')], 'arr', WAVE, raises=True),
     Target('convolve.py', 'wavelet_decenter', [('w', 'arr'), ('oshape', 'intlist'), ('border', 'int')], 'arr', WAVE, raises=True),
 ]
-FAMILIES = [MORPH, CONV, THRESH, HISTO, LAPL, RC, SOFT, EXTREMA, STRETCH, COLORS, COLORS2, WAVE, CIRCLE, RESIZE, EULER, LABELED, DISK, THIN, ZOOM]
+FAMILIES = [MORPH, CONV, THRESH, HISTO, LAPL, RC, SOFT, EXTREMA, STRETCH, COLORS, COLORS2, WAVE, CIRCLE, RESIZE, EULER, LABELED, DISK, THIN, ZOOM, IMRESIZE]
 
 
 def _find_function(tree, name):
